@@ -230,7 +230,7 @@ def search(acc: Acc, tier, shard, nshards):
         ch = model.Ch(data.draw)
         counter["i"] += 1
         doc = model.any_document(model.Gen(ch, prof))
-        surf = render.Surface(ch) if not ch.chance(1, 6) else None
+        surf = render.Surface(ch, numbers=True) if not ch.chance(1, 6) else None
         r = render.render(doc, surf)
         case = {"doc": doc, "text": r.text}
         try:
